@@ -863,7 +863,94 @@ def fam_illformed(tier, seed):
     return out
 
 
+# ------------------------------------------------------------------------------------------ mix
+def fam_mix(tier, seed):
+    """Random whole definitions combining every feature: several rule sets, top-level and local
+    variables, right contexts, `$` tails, classes with differences, built-ins, multi-byte
+    characters. All well-formed by construction (non-nullable rules, non-empty classes, `$` only at
+    the tail, variables bound before use)."""
+    out = []
+    n = 150 if tier == "quick" else 1500
+    rnd = random.Random((seed if tier == "thorough" else 0) + 31)
+    alphabet = "abcxy" + chr(0xE9) + chr(0x2192)
+    classes = [SET(("a", "c")), SET(("b", "y")), SET("a", ("x", "y")), B("ascii_digit"),
+               diff(SET(("a", "y")), SET(("c", "x"))), diff(ANY, SET(("a", "c"))), SET((chr(0xE0), chr(0xFF))),
+               alt(SET(("a", "b")), SET(("x", "y")))]
+
+    def atom(vars_):
+        k = rnd.random()
+        if k < 0.4:
+            return C(rnd.choice(alphabet))
+        if k < 0.6:
+            return rnd.choice(classes)
+        if k < 0.72:
+            return S("".join(rnd.choice(alphabet) for _ in range(rnd.randint(2, 3))))
+        if k < 0.8:
+            return ANY
+        if k < 0.95 and vars_:
+            return V(rnd.choice(sorted(vars_)))
+        return C(rnd.choice("abc"))
+
+    def regex(depth, vars_):
+        if depth <= 0 or rnd.random() < 0.3:
+            return atom(vars_)
+        k = rnd.random()
+        if k < 0.45:
+            return ("cat", regex(depth - 1, vars_), regex(depth - 1, vars_))
+        if k < 0.65:
+            return ("alt", regex(depth - 1, vars_), regex(depth - 1, vars_))
+        if k < 0.78:
+            return ("star", regex(depth - 1, vars_))
+        if k < 0.9:
+            return ("plus", regex(depth - 1, vars_))
+        return ("opt", regex(depth - 1, vars_))
+
+    def rule(env):
+        r = regex(rnd.randint(1, 3), set(env))
+        if nullable(r, env):
+            r = ("cat", r, C(rnd.choice("abc")))
+        if rnd.random() < 0.15:
+            r = ("cat", r, EOI)
+        ctx = None
+        if rnd.random() < 0.3:
+            ctx = regex(rnd.randint(0, 2), set(env))
+            if rnd.random() < 0.25:
+                ctx = alt(ctx, EOI)
+        return Rule(r, ctx=ctx)
+
+    for i in range(n):
+        env = {}
+        top = []
+        for j in range(rnd.randint(0, 2)):
+            name = "t%d" % j
+            r = regex(rnd.randint(0, 2), set(env))
+            top.append(("let", name, r))
+            env[name] = r
+        if rnd.random() < 0.5:
+            items = list(top)
+            for _ in range(rnd.randint(2, 5)):
+                items.append(rule(env))
+            d = Def(top=items)
+        else:
+            sets = []
+            names = ["Init"] + ["R%d" % k for k in range(rnd.randint(1, 3))]
+            for sn in names:
+                local = dict(env)
+                items = []
+                if rnd.random() < 0.4:
+                    r = regex(rnd.randint(0, 2), set(local))
+                    items.append(("let", "l", r))
+                    local["l"] = r
+                for _ in range(rnd.randint(0 if sn != "Init" else 1, 4)):
+                    items.append(rule(local))
+                sets.append((sn, items))
+            d = Def(top=top, sets=sets)
+        out.append(Witness("mix_%d_%d" % (seed if tier == "thorough" else 0, i), "mix", d))
+    return out
+
+
 FAMILIES = {
+    "mix": fam_mix,
     "ops": fam_ops, "munch": fam_munch, "rulesets": fam_rulesets, "rctx": fam_rctx, "eoi": fam_eoi,
     "classes": fam_classes, "builtins": fam_builtins, "prec": fam_prec, "actions": fam_actions,
     "modules": fam_modules, "illformed": fam_illformed,
